@@ -12,6 +12,7 @@ import (
 	"circlsim/core"
 
 	"github.com/cloudflare/circl/abe/cpabe/tkn20"
+	bls12381 "github.com/cloudflare/circl/ecc/bls12381"
 	"github.com/cloudflare/circl/cipher/ascon"
 	"github.com/cloudflare/circl/dh/csidh"
 	"github.com/cloudflare/circl/dh/sidh"
@@ -418,17 +419,25 @@ func init() {
 		}})
 
 	// ---- CP-ABE (tkn20) ----
-	Register(&Entry{Name: "tkn20.PublicKey.UnmarshalBinary", Seeds: 1, Cost: 80,
+	Register(&Entry{Name: "tkn20.PublicKey.UnmarshalBinary", Seeds: 1, Cost: 80, Canon: true, Aware: []func([]byte, int) []byte{blsSlotCompress}, AwareN: 48,
 		Valid: func(seed uint64) []byte { tknSetup(); b, _ := tknCache.pk.MarshalBinary(); return b },
 		Reuse: func() func(in []byte) Result {
 			var pk tkn20.PublicKey
 			return func(in []byte) Result {
-				return Result{Accepted: pk.UnmarshalBinary(in) == nil}
+				if pk.UnmarshalBinary(in) != nil {
+					return Result{}
+				}
+				b, _ := pk.MarshalBinary()
+				return Result{Accepted: true, Reenc: b}
 			}
 		},
 		Call: func(in []byte) Result {
 			var pk tkn20.PublicKey
-			return Result{Accepted: pk.UnmarshalBinary(in) == nil}
+			if pk.UnmarshalBinary(in) != nil {
+				return Result{}
+			}
+			b, _ := pk.MarshalBinary()
+			return Result{Accepted: true, Reenc: b}
 		}})
 	Register(&Entry{Name: "tkn20.SystemSecretKey.UnmarshalBinary", Seeds: 1, Cost: 80,
 		Valid: func(seed uint64) []byte { tknSetup(); b, _ := tknCache.msk.MarshalBinary(); return b },
@@ -442,7 +451,7 @@ func init() {
 			var k tkn20.SystemSecretKey
 			return Result{Accepted: k.UnmarshalBinary(in) == nil}
 		}})
-	Register(&Entry{Name: "tkn20.AttributeKey.UnmarshalBinary", Seeds: 1, Cost: 80,
+	Register(&Entry{Name: "tkn20.AttributeKey.UnmarshalBinary", Seeds: 1, Cost: 80, Aware: []func([]byte, int) []byte{blsSlotCompress}, AwareN: 48,
 		Valid: func(seed uint64) []byte { tknSetup(); b, _ := tknCache.ak.MarshalBinary(); return b },
 		Reuse: func() func(in []byte) Result {
 			var k tkn20.AttributeKey
@@ -552,6 +561,43 @@ func hashFor(s uint64) crypto.Hash {
 		return crypto.SHA512
 	}
 	return crypto.Hash(0)
+}
+
+// blsSlotCompress finds the slots of a byte string that hold an uncompressed BLS12-381 point
+// (96 bytes in G1, 192 in G2) and turns slot number a into "a compressed point followed by
+// whatever was there": the compression flag of its first byte is set.
+var blsSlotCache = map[string][]int{}
+
+func blsSlotCompress(v []byte, a int) []byte {
+	key := string(v)
+	slots, ok := blsSlotCache[key]
+	if !ok {
+		for off := 0; off+96 <= len(v); off++ {
+			if v[off]&0xe0 != 0 {
+				continue
+			}
+			var p bls12381.G1
+			if off+96 <= len(v) && p.SetBytes(v[off:off+96]) == nil {
+				slots = append(slots, off)
+				off += 95
+				continue
+			}
+			var q bls12381.G2
+			if off+192 <= len(v) && q.SetBytes(v[off:off+192]) == nil {
+				slots = append(slots, off)
+				off += 191
+			}
+		}
+		blsSlotCache[key] = slots
+	}
+	if len(slots) == 0 {
+		return nil
+	}
+	if a < 0 {
+		a = -a
+	}
+	v[slots[a%len(slots)]] |= 0x80
+	return v
 }
 
 // refitSizes: field sizes worth trying, dense around small powers of two and their neighbours.
